@@ -1,6 +1,7 @@
 /-
   Line-protocol driver for C19 (core only).
     access <var> <func> <r|w> <lockHeld> <entry>   -> ok | table-mismatch   (row ∈ committed table, each row once)
+    guard <var> <lock|atomic|none>                 -> ok | table-mismatch   (the lock common to all accesses of <var>)
     access-end                                     -> ok | table-mismatch missing=<n> first=<row>
     sign <cacheHash> <cacheSig> <h>                -> ret <r> cache <hash> <sig>       (sequential SignBlock)
     sched <cacheHash> <cacheSig> <h0> <h1> <bits>  -> ret <r0|-> <r1|-> cache <hash> <sig>  (two unsynchronised calls, one merge)
@@ -34,6 +35,10 @@ def step (s : St) (w : List String) : St × String :=
       if s.remaining.contains row then ({ remaining := s.remaining.erase row }, "ok")
       else (s, "table-mismatch")
     | _, _ => (s, "table-mismatch")
+  | ["guard", v, g] =>
+    match Var.ofString? v with
+    | some v => (s, if guards.contains (v, g) then "ok" else "table-mismatch")
+    | none => (s, "table-mismatch")
   | ["access-end"] =>
     match s.remaining with
     | [] => (s, "ok")
